@@ -831,6 +831,11 @@ int __wrap_close(int fd) {
     if (!in_sim()) return __real_close(fd);
     World &w = *g_world;
     FdEnt *e = w.fd(fd);
+    if (e && (e->kind == FdEnt::PACKET || e->kind == FdEnt::UDP) && !e->rxq.empty() && w.hooks.on_close_with_queue) {
+        size_t valid = 0;
+        for (auto &q : e->rxq) if (!q.damaged && q.src_node >= 0) valid++;
+        if (valid) w.hooks.on_close_with_queue(w, e->node, valid);
+    }
     if (e) { w.log("close", (uint64_t)fd); *e = FdEnt(); return 0; }
     if (fd >= 0 && fd <= 2) return 0;
     if (fd >= kFdBase) { errno = EBADF; return -1; }
@@ -890,6 +895,8 @@ ssize_t __wrap_sendto(int fd, const void *buf, size_t len, int flags, const stru
     if (e->kind == FdEnt::UDP && !e->bind_dev.empty() && e->bind_dev != "eth0" && e->bind_dev != "eth-backbone-01" && e->bind_dev != "lo") {
         w.count("ev.sendto_enetunreach"); w.log("sendto-enetunreach", (uint64_t)fd); errno = ENETUNREACH; return -1;
     }
+    // packet_snd(): the address must be a complete sockaddr_ll (up to and including the 8 address bytes)
+    if (e->kind == FdEnt::PACKET && (!addr || alen < sizeof(struct sockaddr_ll))) { w.count("ev.sendto_einval"); w.log("sendto-einval", (uint64_t)fd, (uint64_t)alen); errno = EINVAL; return -1; }
     if (e->pending_err) { errno = e->pending_err; e->pending_err = 0; w.count("ev.sendto_econnrefused"); w.log("sendto-econnrefused", (uint64_t)fd); return -1; }
     // a non-blocking send may find the transmit queue full (cooperative fault point: only programs that ask for MSG_DONTWAIT see it)
     if ((flags & MSG_DONTWAIT) && w.rng_net.chance(0.1)) { w.count("fault.sendto_eagain"); w.log("sendto-eagain", (uint64_t)fd); errno = EAGAIN; return -1; }
